@@ -6,6 +6,7 @@
 #include "codec_internal.h"
 #define RW(p, n) __CPROVER_rw_ok((p), (n))
 #define VERIF_MAXCH 2
+extern const void *__CPROVER_alloca_object;   /* CBMC-internal cell written by its alloca model */
 /* lpc.c (float DSP, not verified): only the ranges they read and write matter here */
 float vorbis_lpc_from_data(float *data, float *lpci, int n, int m)
   __CPROVER_requires(n >= 0 && m >= 0 && m <= 32 && RW(data, sizeof(float) * n) && RW(lpci, sizeof(float) * m))
@@ -19,7 +20,7 @@ static void _preextrapolate_helper(vorbis_dsp_state *v)
   __CPROVER_requires(RW(v, sizeof(*v)) && RW(v->vi, sizeof(vorbis_info)) && v->vi->channels >= 1 && v->vi->channels <= VERIF_MAXCH)
   /* any amount of audio may have been submitted (C04: pieces of any sizes) */
   __CPROVER_requires(v->centerW >= 0 && v->centerW <= 4096 && v->pcm_current >= v->centerW && v->pcm_current <= v->pcm_storage && v->pcm_storage <= (1 << 28))
-  __CPROVER_assigns(v->preextrapolate, __CPROVER_object_whole(v->pcm[0]), __CPROVER_object_whole(v->pcm[1]))
+  __CPROVER_assigns(v->preextrapolate, __CPROVER_alloca_object, __CPROVER_object_whole(v->pcm[0]), __CPROVER_object_whole(v->pcm[1]))
   /* C04: the one-shot flag is set whether or not there was enough audio to extrapolate from */
   __CPROVER_ensures(v->preextrapolate == 1)
   __CPROVER_ensures(v->pcm_current == OLD(v->pcm_current) && v->centerW == OLD(v->centerW))
@@ -46,7 +47,6 @@ float **vorbis_analysis_buffer(vorbis_dsp_state *v, int vals)
   __CPROVER_ensures(g_buf_req == vals && v->pcm_storage >= OLD(v->pcm_storage) && v->pcm_storage > v->pcm_current + vals &&
                     v->pcm_storage <= (1 << 29) &&
                     FRESH(v->pcm[0], sizeof(float) * v->pcm_storage) && FRESH(v->pcm[1], sizeof(float) * v->pcm_storage));
-extern const void *__CPROVER_alloca_object;   /* CBMC-internal cell written by its alloca model */
 int vorbis_analysis_wrote(vorbis_dsp_state *v, int vals)
   __CPROVER_requires(vals <= (1 << 28))   /* pcm_current+vals is int arithmetic: no request beyond 2^28 samples */
   __CPROVER_requires(RW(v, sizeof(*v)) && RW(v->vi, sizeof(vorbis_info)) && RW(v->vi->codec_setup, sizeof(codec_setup_info)) &&
@@ -72,6 +72,84 @@ int vorbis_analysis_wrote(vorbis_dsp_state *v, int vals)
   REACH_ENSURES(vals <= 0 && OLD(v->pcm_current) <= 64 && v->vi->channels == 2)
   REACH_ENSURES(vals <= 0 && OLD(v->pcm_current) > 100000)
   REACH_ENSURES(RV == OV_EINVAL)
+#endif
+  ;
+#endif
+
+
+/* ---- vorbis_analysis_blockout (C04: granule positions; C05: window flags) ---- */
+#ifdef VERIF_UNIT_BLOCKOUT
+#include "envelope.h"
+#include "psy.h"
+int nondet_int(void);
+long g_bp;          /* what the envelope search answered */
+int g_rip, g_allocs;
+/* envelope.c / psy.c (float analysis, not verified): the block-size decision is
+   ARBITRARY here, so the postconditions hold for every sequence of short/long decisions */
+long _ve_envelope_search(vorbis_dsp_state *v) __CPROVER_assigns(g_bp) __CPROVER_ensures((RV == -1 || RV == 0 || RV == 1) && g_bp == RV);
+int _ve_envelope_mark(vorbis_dsp_state *v) __CPROVER_assigns() __CPROVER_ensures(RV == 0 || RV == 1);
+void _ve_envelope_shift(envelope_lookup *e, long shift) __CPROVER_requires(shift > 0) __CPROVER_assigns() __CPROVER_ensures(1);
+float _vp_ampmax_decay(float amp, vorbis_dsp_state *vd) __CPROVER_assigns() __CPROVER_ensures(1);
+void _vorbis_block_ripcord(vorbis_block *vb) __CPROVER_assigns(vb->localtop, vb->reap, vb->totaluse, vb->localstore, vb->localalloc, g_rip) __CPROVER_ensures(g_rip == OLD(g_rip) + 1);
+void *_vorbis_block_alloc(vorbis_block *vb, long bytes)   /* proved in unit blk_alloc: a region of `bytes` bytes */
+  __CPROVER_requires(bytes >= 1 && bytes <= (1L << 26))
+  __CPROVER_assigns(vb->localtop, vb->localalloc, vb->localstore, vb->totaluse, vb->reap, g_allocs)
+  __CPROVER_ensures(FRESH(RV, bytes) && g_allocs == OLD(g_allocs) + 1);
+/* ASSUMED models of memcpy / memmove for this unit: ranges must be readable /
+   writable, destination bytes become arbitrary (the sample VALUES are not part of
+   any obligation here; CBMC's own models do not scale to symbolic megabyte sizes) */
+void *memcpy(void *d, const void *s_, size_t n) { __CPROVER_assert(n == 0 || (__CPROVER_r_ok(s_, n) && __CPROVER_w_ok(d, n)), "memcpy ranges valid"); if (n) __CPROVER_havoc_slice(d, n); return d; }
+void *memmove(void *d, const void *s_, size_t n) { __CPROVER_assert(n == 0 || (__CPROVER_r_ok(s_, n) && __CPROVER_w_ok(d, n)), "memmove ranges valid"); if (n) __CPROVER_havoc_slice(d, n); return d; }
+
+#define BCI(v) ((codec_setup_info *)(v)->vi->codec_setup)
+#define HALF1(v) (BCI(v)->blocksizes[1] / 2)
+/* INV on the encode side: the current block is always centred at bs1/2 in the
+   buffer (analysis_init and every advance establish it); the end mark, once set,
+   lies beyond the centre of the block being produced unless this is the last one */
+int vorbis_analysis_blockout(vorbis_dsp_state *v, vorbis_block *vb)
+  __CPROVER_requires(RW(v, sizeof(*v)) && RW(vb, sizeof(*vb)) && RW(v->vi, sizeof(vorbis_info)) && RW(v->vi->codec_setup, sizeof(codec_setup_info)) &&
+                     RW(v->backend_state, sizeof(private_state)) && RW(((private_state *)v->backend_state)->psy_g_look, sizeof(vorbis_look_psy_global)) &&
+                     RW(vb->internal, sizeof(vorbis_block_internal)))
+  __CPROVER_requires(v->vi->channels >= 1 && v->vi->channels <= VERIF_MAXCH)
+  __CPROVER_requires(BCI(v)->blocksizes[0] >= 64 && BCI(v)->blocksizes[0] <= BCI(v)->blocksizes[1] && BCI(v)->blocksizes[1] <= 8192 &&
+                     ((BCI(v)->blocksizes[0] & (BCI(v)->blocksizes[0] - 1)) == 0) && ((BCI(v)->blocksizes[1] & (BCI(v)->blocksizes[1] - 1)) == 0))
+  __CPROVER_requires((v->W == 0 || v->W == 1) && (v->lW == 0 || v->lW == 1) && v->centerW == HALF1(v) &&
+                     v->pcm_current >= v->centerW && v->pcm_current <= v->pcm_storage && v->pcm_storage <= (1 << 28) &&
+                     v->pcm_storage >= BCI(v)->blocksizes[1] &&   /* _vds_shared_init; vorbis_analysis_buffer only grows it */
+                     v->eofflag >= -1 && v->eofflag <= v->pcm_current && v->granulepos >= 0 && v->granulepos < (1LL << 61) &&
+                     v->sequence >= 0 && v->sequence < (1LL << 61) && g_rip == 0 && g_allocs == 0)
+  __CPROVER_assigns(v->nW, v->lW, v->W, v->centerW, v->pcm_current, v->eofflag, v->granulepos, v->sequence, g_bp, g_rip, g_allocs,
+                    *vb, __CPROVER_object_whole(vb->internal), __CPROVER_object_whole(((private_state *)v->backend_state)->psy_g_look),
+                    __CPROVER_object_whole(v->pcm[0]), __CPROVER_object_whole(v->pcm[1]))
+  __CPROVER_ensures(RV == 0 || RV == 1)
+  /* nothing before the start-of-stream preparation, nothing after the last block, and no block => no state change */
+  __CPROVER_ensures((OLD(v->preextrapolate) == 0 || OLD(v->eofflag) == -1) ==> RV == 0)
+  __CPROVER_ensures(RV == 0 ==> (v->granulepos == OLD(v->granulepos) && v->sequence == OLD(v->sequence) && v->centerW == OLD(v->centerW) &&
+                                 v->pcm_current == OLD(v->pcm_current) && v->eofflag == OLD(v->eofflag) && v->W == OLD(v->W) && v->lW == OLD(v->lW) && g_rip == 0))
+  /* the block: the position BEFORE the advance, consecutive sequence numbers, the
+     window flags of the state (C05: a block's flags are its neighbours' sizes) */
+  __CPROVER_ensures(RV == 1 ==> (vb->granulepos == OLD(v->granulepos) && vb->sequence == OLD(v->sequence) && v->sequence == OLD(v->sequence) + 1 &&
+                                 vb->W == OLD(v->W) && vb->lW == OLD(v->lW) && vb->nW == v->nW && (v->nW == 0 || v->nW == 1) &&
+                                 vb->pcmend == BCI(v)->blocksizes[OLD(v->W)] && g_rip == 1 && vb->vd == v))
+  /* the last block: the one whose centre has reached the end mark; flagged, and then nothing more */
+  __CPROVER_ensures((RV == 1 && OLD(v->eofflag) > 0 && OLD(v->centerW) >= OLD(v->eofflag)) ==> (vb->eofflag == 1 && v->eofflag == -1 && v->granulepos == OLD(v->granulepos)))
+  /* otherwise the window history chains (next block's lW is this block's W, its W this block's nW),
+     the centre returns to bs1/2, and the granule position advances by the movement, except that
+     it never counts the padding after the end mark: it stops at the end mark's position */
+#define MOVE(v) (OLD(v->centerW) + BCI(v)->blocksizes[OLD(v->W)] / 4 + BCI(v)->blocksizes[v->nW] / 4 - HALF1(v))
+  __CPROVER_ensures((RV == 1 && !(OLD(v->eofflag) > 0 && OLD(v->centerW) >= OLD(v->eofflag))) ==>
+                    (v->lW == OLD(v->W) && v->W == v->nW && v->centerW == HALF1(v) && v->pcm_current == OLD(v->pcm_current) - MOVE(v) &&
+                     (OLD(v->eofflag) == 0 ? (v->eofflag == 0 && v->granulepos == OLD(v->granulepos) + MOVE(v))
+                                           : (v->eofflag == OLD(v->eofflag) - MOVE(v) &&
+                                              v->granulepos == (v->centerW >= v->eofflag ? OLD(v->granulepos) + (OLD(v->eofflag) - OLD(v->centerW))
+                                                                                          : OLD(v->granulepos) + MOVE(v))))))
+  /* granule positions never decrease */
+  __CPROVER_ensures(v->granulepos >= OLD(v->granulepos))
+#ifdef VERIF_ENFORCE_vorbis_analysis_blockout
+  REACH_ENSURES(RV == 1 && vb->eofflag == 1)
+  REACH_ENSURES(RV == 1 && OLD(v->eofflag) > 0 && v->eofflag > 0 && v->centerW >= v->eofflag)
+  REACH_ENSURES(RV == 1 && OLD(v->eofflag) == 0 && OLD(v->W) == 1 && v->nW == 0 && v->vi->channels == 2)
+  REACH_ENSURES(RV == 0 && OLD(v->preextrapolate) == 1 && OLD(v->eofflag) == 0)
 #endif
   ;
 #endif
